@@ -265,8 +265,13 @@ func ServerGoroutines() []string {
 // stacks if the bounded retry is exhausted.
 func WaitNoServerGoroutines() []string {
 	var left []string
-	for i := 0; i < 2000; i++ {
-		left = ServerGoroutines()
+	for i := 0; i < 600; i++ {
+		left = left[:0]
+		for _, g := range ServerGoroutines() {
+			if !knownLeaked[goroutineID(g)] {
+				left = append(left, g)
+			}
+		}
 		if len(left) == 0 {
 			return nil
 		}
@@ -276,7 +281,23 @@ func WaitNoServerGoroutines() []string {
 			time.Sleep(time.Millisecond)
 		}
 	}
+	// Reported once, for the case that leaked them; they stay in the process
+	// and must not be blamed on (or slow down) the cases that follow.
+	for _, g := range left {
+		knownLeaked[goroutineID(g)] = true
+	}
 	return left
+}
+
+var knownLeaked = map[string]bool{}
+
+func goroutineID(stack string) string {
+	// "goroutine 123 [chan send]:"
+	f := strings.Fields(stack)
+	if len(f) >= 2 && f[0] == "goroutine" {
+		return f[1]
+	}
+	return stack
 }
 
 // BlockedStacks returns, from the given goroutine stacks, those whose state
@@ -309,6 +330,8 @@ type Wire struct {
 	pumped []byte // guarded by hub (TLS mode)
 	pumpEr error
 	Out    []byte // everything received so far (after Recv calls)
+	// Deadlock holds the goroutine stacks when a wait ended in QDeadlock.
+	Deadlock string
 }
 
 // Dial opens a connection to the rig's server. With implicit TLS the
@@ -392,10 +415,84 @@ const (
 	QWatchdog = "watchdog"
 )
 
+// QDeadlock: every goroutine executing server-side library code is parked on a
+// channel / mutex / wait group, none of them waits for network input or on a
+// harness gate, and nothing is queued: nobody can ever wake them. This is a
+// state, not a timeout; the stacks are in Wire.Deadlock.
+const QDeadlock = "deadlock"
+
+// deadlockStacks returns the stacks when the state-based deadlock criterion
+// holds, else nil.
+func (w *Wire) deadlockStacks() []string {
+	w.R.Hub.Lock()
+	busy := w.S.ClosedLocked() || w.S.BlockedInReadLocked() || w.R.B.AtGateLocked() || w.S.PendingInLocked() > 0
+	w.R.Hub.Unlock()
+	if busy {
+		return nil
+	}
+	check := func() []string {
+		var live []string
+		for _, g := range ServerGoroutines() {
+			if !knownLeaked[goroutineID(g)] {
+				live = append(live, g)
+			}
+		}
+		if len(live) == 0 {
+			return nil
+		}
+		for _, g := range live {
+			if strings.Contains(g, "harness.(*End).Read") || strings.Contains(g, "harness.(*Backend).waitGate") || strings.Contains(g, "time.Sleep") {
+				return nil
+			}
+		}
+		if len(BlockedStacks(live)) != len(live) {
+			return nil
+		}
+		return live
+	}
+	a := check()
+	if a == nil {
+		return nil
+	}
+	// the same goroutines must still be parked a moment later
+	time.Sleep(20 * time.Millisecond)
+	b := check()
+	if b == nil || len(a) != len(b) {
+		return nil
+	}
+	for i := range a {
+		if goroutineID(a[i]) != goroutineID(b[i]) {
+			return nil
+		}
+	}
+	return b
+}
+
+// waitOrDeadlock waits for pred like Hub.WaitUntil(pred, Watchdog) but checks
+// the deadlock criterion between short waits. It returns "" when pred became
+// true, QDeadlock or QWatchdog otherwise.
+func (w *Wire) waitOrDeadlock(pred func() bool) string {
+	deadline := time.Now().Add(Watchdog)
+	slice := 200 * time.Millisecond
+	for time.Now().Before(deadline) {
+		if w.R.Hub.WaitUntil(pred, slice) {
+			return ""
+		}
+		if st := w.deadlockStacks(); st != nil {
+			w.Deadlock = strings.Join(st, "\n\n")
+			return QDeadlock
+		}
+		if slice < 2*time.Second {
+			slice *= 2
+		}
+	}
+	return QWatchdog
+}
+
 // WaitQuiet waits until the server cannot make progress without the harness.
 func (w *Wire) WaitQuiet() string {
 	st := ""
-	ok := w.R.Hub.WaitUntil(func() bool {
+	bad := w.waitOrDeadlock(func() bool {
 		switch {
 		case w.S.ClosedLocked():
 			st = QClosed
@@ -413,16 +510,17 @@ func (w *Wire) WaitQuiet() string {
 			}
 		}
 		return true
-	}, Watchdog)
-	if !ok {
-		return QWatchdog
+	})
+	if bad != "" {
+		return bad
 	}
 	return st
 }
 
-// WaitClosed waits until the server has closed the connection.
+// WaitClosed waits until the server has closed the connection. It returns
+// false on a deadlock (Wire.Deadlock is set) or when the watchdog expires.
 func (w *Wire) WaitClosed() bool {
-	return w.R.Hub.WaitUntil(func() bool { return w.S.ClosedLocked() }, Watchdog)
+	return w.waitOrDeadlock(func() bool { return w.S.ClosedLocked() }) == ""
 }
 
 // Recv returns the octets received since the previous Recv (non-blocking).
@@ -465,6 +563,16 @@ func (w *Wire) Finish() ([]byte, bool) {
 	w.CloseWrite()
 	w.R.B.ReleaseAll()
 	ok := w.WaitClosed()
+	if !ok && w.Deadlock != "" {
+		// nothing will ever finish: do not sit through the remaining
+		// watchdogs; the stuck goroutines are remembered as leaked
+		w.Abort()
+		w.R.Srv.Close()
+		for _, g := range ServerGoroutines() {
+			knownLeaked[goroutineID(g)] = true
+		}
+		return w.Recv(), false
+	}
 	ok = w.R.Shutdown() && ok
 	if w.tlsc != nil {
 		// let the pump see EOF
